@@ -167,6 +167,11 @@ Fixpoint logical (evs : list pev) (in_frag : bool) (scratch : bytes) : list lev 
       else if ty =? T_LAST then
         if in_frag then Rec (scratch ++ frag) :: logical evs' false []
         else Drop (nlen frag) :: logical evs' in_frag scratch
+      else if ty =? 5 then
+        []     (* a type byte of 5 collides with the reader's internal LDB_EOF code: read_record returns 0 *)
+      else if ty =? 6 then
+        (* ... and 6 with LDB_BAD_RECORD *)
+        (if in_frag then [Drop (nlen scratch)] else []) ++ logical evs' false []
       else
         Drop (nlen frag + (if in_frag then nlen scratch else 0)) :: logical evs' false []
   end.
